@@ -1037,6 +1037,40 @@ class AbstractExecutionTracer(ABC):  # noqa: PLR0904
         """
 
 
+_NO_VALUE = object()
+
+
+def _peek_attribute(obj: object, name: str) -> object:
+    """Read an attribute only if that does not execute code of the module under test.
+
+    The tracer is told about an attribute access before it happens. Evaluating a
+    property, another descriptor written in Python or `__getattr__` here would run
+    that code a second time (with all its side effects) or raise its exception from
+    within the tracer.
+
+    Args:
+        obj: the object whose attribute is about to be accessed
+        name: the name of the attribute
+
+    Returns:
+        The value of the attribute, or `_NO_VALUE` if it cannot be read passively.
+    """
+    if inspect.isfunction(getattr(type(obj), "__getattribute__", None)):
+        return _NO_VALUE
+    try:
+        static_value = inspect.getattr_static(obj, name)
+    except AttributeError:
+        # Does not exist, or would be produced by `__getattr__`.
+        return _NO_VALUE
+    getter = getattr(type(static_value), "__get__", None)
+    if isinstance(static_value, property) or inspect.isfunction(getter):
+        return _NO_VALUE
+    try:
+        return getattr(obj, name)
+    except AttributeError:
+        return _NO_VALUE
+
+
 def _numeric_distance(val1, val2) -> float:
     """Absolute difference of two unequal numbers as a branch distance.
 
@@ -1370,12 +1404,7 @@ class ExecutionTracer(AbstractExecutionTracer):  # noqa: PLR0904
         exc_value: BaseException | None,
         traceback: TracebackType | None,
     ) -> None:
-        # Only the thread that owns the tracer may deactivate it.  A thread that was
-        # abandoned after a timeout unwinds through this method as soon as ``check``
-        # aborts it; stopping unconditionally would then abort the test case that is
-        # being executed in the meantime, which would be reported as a timeout.
-        if threading.current_thread().ident == self._current_thread_identifier:
-            self.stop()
+        self.stop()
 
     def check(self) -> None:  # noqa: D102
         if threading.current_thread().ident != self._current_thread_identifier:
@@ -1721,9 +1750,15 @@ class ExecutionTracer(AbstractExecutionTracer):  # noqa: PLR0904
             arg_type = type(None)
         else:
             src_address = self.attribute_lookup(obj, attr_name)
-            attr_value = getattr(obj, attr_name)
-            arg_address = id(attr_value)
-            arg_type = type(attr_value)
+            attr_value = _peek_attribute(obj, attr_name)
+            if attr_value is _NO_VALUE:
+                # Only the module under test may compute this attribute (property,
+                # `__getattr__`, ...): neither its address nor its type is known.
+                arg_address = -1
+                arg_type = object
+            else:
+                arg_address = id(attr_value)
+                arg_type = type(attr_value)
 
         # Different built-in methods and functions often have the same address when
         # accessed sequentially.
@@ -1862,11 +1897,10 @@ class ExecutionTracer(AbstractExecutionTracer):  # noqa: PLR0904
             and attribute in object_type.__dict__
         ):
             return id(object_type)
-        if (
-            hasattr(object_type, "__slots__")
-            and object_type.__slots__
-            and attribute in object_type.__slots__
-        ):
+        # `__slots__` is looked up on the class: asking the object for it would call a
+        # `__getattr__` of the module under test.
+        slots = getattr(type(object_type), "__slots__", None)
+        if slots and attribute in slots:
             return id(object_type)
 
         # Check if attribute in MRO hierarchy (no need for data descriptor)
